@@ -246,7 +246,7 @@ def build_model_cli(pid, force=False):
     if not force and os.path.exists(exe) and os.path.getmtime(exe) >= newest_mtime(srcs):
         return True, 'up to date'
     deps = []
-    for m in re.finditer(r'From\s+SV\s+Require\s+Import\s+([^.]*(?:\.[A-Za-z_]\w*)*[^.]*)\.\s', open(pv).read()):
+    for m in re.finditer(r'From\s+SV\s+Require\s+Import\s+(.*?)\.(?:\s|$)', open(pv).read(), re.S):
         for name in m.group(1).split():
             deps.append(name.replace('.', '/') + '.vo')
     ok, log = coq_build(' '.join(deps))
